@@ -11,6 +11,7 @@ R5  reported length = latest row time + post-song delay, whose initial value is 
 R6  tempo freshness: in processEvents the tick->seconds conversion of the delay to the next row reads m_tempo at a point from
     which no handleEvent call is reachable (a Set Tempo of the current row already applies to the following delay).
 """
+import collections
 from ..core import *
 from ..logic import *
 from ..report import Obl, Rule
@@ -25,6 +26,7 @@ RULES = [
     Rule('C07.R4', 'same-tick ordering buckets and a consistent note-state index', 3),
     Rule('C07.R5', 'reported length is the latest row time plus the one-second post-song delay', 2),
     Rule('C07.R6', 'the delay to the next row is converted with the tempo in force after the row\'s events were handled', 1),
+    Rule('C07.R8', 'loading a song resets the track / channel gating state: the gating members are re-initialised and every table sized by the new track count is emptied first', 5),
     Rule('C07.R7', 'running status is updated by every channel voice message; each track\'s time line starts from the initial tempo', 2),
 ]
 EXPLANATION = ('AST/CFG agreement rules over BW_MidiSequencer::handleEvent, parseEvent, MidiTrackRow::sortEvents, buildTimeLine and the interface wiring in '
@@ -266,6 +268,7 @@ def analyse(facts, tier):
     obls.append(Obl('C07.R5', bt.name, 'length = max row time + post-song delay', bt.loc, 'discharged' if (mx and add) else 'finding', why='max over rows, then += m_postSongWaitDelay' if (mx and add) else 'length computation differs (max=%s, add=%s)' % (mx, add)))
     obls += r6(facts)
     obls += r7(facts)
+    obls += r8_load_reset(facts)
     return obls
 
 
@@ -385,4 +388,62 @@ def r7(facts):
                            '%s is updated by the tempo events of one track and carried into the next: every later track is timed from the tempo the previous one ended with, so event times and the song length come out wrong' % nm))
     if n < 1:
         raise build.AnalysisBroken('C07.R7: the per-track tempo variable of buildTimeLine was not found')
+    return out
+
+
+def r8_load_reset(facts):
+    """buildSmfSetupReset runs at every load.  (a) every member the gating conditions of handleEvent / processEvents read (names taken
+    from those conditions, not from a list) is re-initialised in it; (b) a member `X.resize(trackCount ..)` keeps the elements it
+    already has (vector::resize), so each such resize is preceded by X.clear() — otherwise the per-track state of the previous song
+    (disable flags, queue rows, positions) stays in force for the first tracks of the new one."""
+    out = []
+    fn = facts.fn(SEQ + '::buildSmfSetupReset')
+    # gating members: members mentioned by conditions that guard event delivery
+    gating = set()
+    for gname in ('handleEvent', 'processEvents'):
+        g = facts.fn(SEQ + '::' + gname)
+        for i, blk in g.cfg.blocks.items():
+            c = blk.get('cond')
+            if c is None:
+                continue
+            for y in walk(c):
+                if y.get('k') == 'MemberExpr' and any(t in short(y.get('n', '')) for t in ('Disable', 'Solo')):
+                    gating.add(short(y['n']))
+    if len(gating) < 3:
+        raise build.AnalysisBroken('C07.R8: gating members not found in the delivery conditions (%s)' % sorted(gating))
+    stores = collections.defaultdict(list)      # member -> [(b, j, kind, st)]
+    for b, j, st in fn.cfg.stmts():
+        for x in walk(st['s']):
+            ap = assign_parts(x)
+            if ap and strip(ap[0]).get('k') == 'MemberExpr':
+                stores[short(strip(ap[0])['n'])].append((b, j, 'assign', st, x))
+            if 'callee' in x:
+                cn = short(callee_name(x))
+                if cn in ('clear', 'resize', 'assign') and x.get('obj') is not None:
+                    o = strip(x['obj'])
+                    key = show(o)
+                    stores[key].append((b, j, cn, st, x))
+                    if o.get('k') == 'MemberExpr':
+                        stores[short(o['n'])].append((b, j, cn, st, x))
+                if cn == 'memset' and x.get('a'):
+                    for y in walk(x['a'][0]):
+                        if y.get('k') == 'MemberExpr':
+                            stores[short(y['n'])].append((b, j, 'memset', st, x))
+    for m in sorted(gating):
+        ss = [s_ for s_ in stores.get(m, []) if s_[2] in ('assign', 'clear', 'memset', 'assign')]
+        ok = bool(ss)
+        out.append(Obl('C07.R8', fn.name, 'gating member %s re-initialised' % m, ss[0][3]['loc'] if ss else fn.loc, 'discharged' if ok else 'finding',
+                       why='%s at load' % ss[0][2] if ok else 'the gating state %s of the previous song stays in force after a load: tracks / channels of the new song are dropped although nothing was switched off for it' % m))
+    nres = 0
+    for key, ss in sorted(stores.items()):
+        for b, j, kind, st, x in ss:
+            if kind != 'resize' or not x.get('a') or const_of(x['a'][0]) is not None or key != show(strip(x['obj'])):
+                continue
+            nres += 1
+            ok = any(k2 == 'clear' and ((b2 == b and j2 < j) or (b2 != b and fn.cfg.block_dominates(b2, b))) for b2, j2, k2, _, _ in ss)
+            out.append(Obl('C07.R8', fn.name, '%s.resize(%s)' % (key, show(x['a'][0])[:20]), st['loc'], 'discharged' if ok else 'finding',
+                           why='emptied by %s.clear() first: every element is value-initialised for the new song' % key if ok else
+                           '%s.resize() keeps the elements of the previous song (no clear() before it): per-track state survives the load' % key))
+    if nres < 2:
+        raise build.AnalysisBroken('C07.R8: track-count resizes of buildSmfSetupReset not found')
     return out
